@@ -17,6 +17,7 @@ func init() {
 }
 
 func runC11(c *Ctx) {
+	defer checkContextPropagated(c, "C11.R10")
 	defer checkClientGetters(c, "C11.R9", clientGetter{"DefaultClient", "GetRedirectURIs", "RedirectURIs", ""}, clientGetter{"DefaultClient", "GetID", "ID", ""})
 	defer checkResponseModeHas(c, "C11.R8")
 	defer checkStoreKeyed(c, "C11.R7", storeRow{meth: "GetClient", table: "Clients", op: "get", key: 2})
